@@ -58,6 +58,8 @@ type DocSpec struct {
 	TextOps  int  `json:"text_ops"`  // 0 Tj only, 1 TJ arrays, 2 mixed incl. Tm / T* positioning
 	FormXObj bool `json:"form_xobj"` // some lines live in a Form XObject
 
+	ForceCMapForm int `json:"force_cmap_form,omitempty"` // 0 = drawn per font; 1 bfchar only, 2 bfrange, 3 bfrange with arrays
+
 	Revisions int   `json:"revisions"` // incremental updates after the base (0..4)
 	RevOps    []int `json:"rev_ops"`   // per update: 0 replace page content, 1 add page, 2 delete page, 3 replace font, 4 touch catalog
 }
@@ -274,6 +276,9 @@ func (d *docState) buildBase(set map[int]Obj) {
 	fontDict := Dict{}
 	for i, k := range kinds {
 		f := NewFont(k, "F"+strconv.Itoa(i+1), r.Split("font"+strconv.Itoa(i)))
+		if sp.ForceCMapForm > 0 {
+			f.CMapForm = sp.ForceCMapForm - 1
+		}
 		d.fonts = append(d.fonts, f)
 		num := d.alloc()
 		fd, aux := f.Objects(d.alloc, d.w.Gen, sp.FontPartsIndirect, r.Split("fontobj"+strconv.Itoa(i)))
